@@ -387,16 +387,33 @@ Fixpoint sys_go (t : table) (cm : connmap) (ex : list req) (st : state) (vals : 
               | (st', Ok v) => sys_go t cm r st' (vals ++ [v])
               end
   end.
+(* ports of the design that were not created by request(): a raw IOPort has no metadata (None for every bit)
+   and iter_port_constraints_bits skips it (`continue`), whatever its width and position in Design.ports *)
+Inductive dport := DRes (p : ioport) | DRaw (width : Z).
+Definition dport_entries (d : dport) : list constr := match d with DRes p => port_entries p | DRaw _ => [] end.
+Definition design_constraints (ds : list dport) : list constr := concat (map dport_entries ds).
+(* raw = (position, width): the design uses the raw port just before buffering its position-th granted port
+   (Design.ports lists ports in order of first use); positions past the end come after the last one *)
+Fixpoint raws_at (raw : list (nat * Z)) (i : nat) : list dport :=
+  match raw with [] => [] | (k, w) :: r => (if Nat.eqb k i then [DRaw w] else []) ++ raws_at r i end.
+Fixpoint raws_from (raw : list (nat * Z)) (i : nat) : list dport :=
+  match raw with [] => [] | (k, w) :: r => (if Nat.leb i k then [DRaw w] else []) ++ raws_from r i end.
+Fixpoint weave (v : vendor) (raw : list (nat * Z)) (i : nat) (ls : list lval) : list dport :=
+  match ls with
+  | [] => raws_from raw i
+  | l :: r => raws_at raw i ++ map DRes (used_ioports v (lv_port l)) ++ weave v raw (S i) r
+  end.
+
 Definition build (v : vendor) (t : table) (cm : connmap) (hist : list req) (dclk drst : option Z)
-           (unused : list path) : list (req * result) * (err + plan) :=
+           (unused : list path) (raw : list (nat * Z)) : list (req * result) * (err + plan) :=
   let acc := run t cm hist in
   match sys_go t cm (sys_reqs dclk drst) (fst acc) [] with
   | inl e => (snd acc, inl e)
   | inr (st, sysvals) =>
     let designed := filter (fun l => negb (path_mem (pt_path (lv_port l)) unused))
                            (concat (map (fun qv => leaves (snd qv)) (granted (snd acc)))) in
-    let buffered := designed ++ concat (map leaves sysvals) in
-    let cs := port_constraints (concat (map (fun l => used_ioports v (lv_port l)) buffered)) in
+    let sysports := concat (map (fun l => used_ioports v (lv_port l)) (concat (map leaves sysvals))) in
+    let cs := design_constraints (weave v raw 0 designed ++ map DRes sysports) in
     (snd acc, inr (mkPlan (if vendor_attrs v then cs else map strip_attrs cs)
                           (if vendor_clocks v then clock_constraints st else [])))
   end.
